@@ -122,6 +122,9 @@ Definition with_tags (old new : list (nat * list nat)) : list (nat * list nat) :
 (* the tags of a mesh after a history of with_boundaries calls (oldest first) *)
 Definition tag_history (hist : list (list (nat * list nat))) : list (nat * list nat) := fold_left with_tags hist [].
 
+(* complement_dofs(D1, D2, ...) / complement_dofs({name: view, ...}): np.setdiff1d(np.arange(N), np.concatenate(D)) *)
+Definition complement_many (N : nat) (Ds : list (list nat)) : list nat := complement N (concat Ds).
+
 (* ---- selectors: what normalize_facets / normalize_elements accept *)
 Inductive sel :=
 | SInt (i : nat)                 (* int *)
